@@ -588,6 +588,10 @@ func (n *PathRecursiveNode) Index(_ int) (PathNode, bool, error) {
 func valueToSliceValue(v interface{}) []interface{} {
 	rv := reflect.ValueOf(v)
 	ret := []interface{}{}
+	if !rv.IsValid() {
+		// a nil result (the child path selected nothing or a nil value)
+		return ret
+	}
 	if rv.Type().Kind() == reflect.Slice || rv.Type().Kind() == reflect.Array {
 		for i := 0; i < rv.Len(); i++ {
 			ret = append(ret, rv.Index(i).Interface())
